@@ -46,7 +46,14 @@ fn main() {
         "check" => {
             let id: &'static str = Box::leak(args[2].clone().into_boxed_str());
             let cfg = Cfg { id, tier, seed, workers, verif_dir, out_dir, started: Instant::now(), scale };
-            let code = avm::dispatch(&cfg, &extra);
+            let code = match std::panic::catch_unwind(std::panic::AssertUnwindSafe(|| avm::dispatch(&cfg, &extra))) {
+                Ok(c) => c,
+                Err(_) => {
+                    // a panic outside the guarded engine calls is a defect of the harness itself: never a verdict
+                    println!("INCONCLUSIVE property={} reason=harness error (panic outside guarded engine calls; see stderr)", cfg.id);
+                    2
+                }
+            };
             std::process::exit(code);
         }
         "child-longgame" => {
